@@ -302,6 +302,19 @@ def scenarios(prop, tier, rng):
                 sc['mt1'], sc['mt2'] = ms
                 sc['kw']['max_tau'] = 0
             if prop == 'C17':
+                if rng.random() < 0.35:
+                    # one dense train among sparse ones + MRTS='auto': the pooled threshold differs
+                    # strongly from any pairwise one
+                    _, ts_, te_ = sc['trains'][0]
+                    step = rng.choice([Fr(1, 2), Fr(1, 4), Fr(3, 4)])
+                    k0 = rng.randrange(N)
+                    dense, x = [], ts_ + step * rng.choice([Fr(1, 2), 1])
+                    while x < te_:
+                        dense.append(x); x += step
+                    sc['trains'][k0] = (dense, ts_, te_)
+                    sc['kw']['mrts'] = 'auto'
+                elif rng.random() < 0.15:
+                    sc['kw']['mrts'] = 'auto'
                 sc['thr'] = rng.choice([Fr(k, N - 1) for k in range(N)] + [Fr(1, 4), Fr(1, 2), Fr(3, 4)])
                 sc['thr2'] = min(Fr(1), sc['thr'] + rng.choice([0, Fr(1, 4), Fr(1, 2)]))
             if prop == 'C04' and rng.random() < 0.3:
